@@ -7,6 +7,9 @@ CONSTANTS
   DirMissing = TRUE
   AnySplit = TRUE
   KeepHist = FALSE
+  Reusers = {}
+  MaxRounds = 1
+  MinBody = 0
 INVARIANT DestOldOrNew
 INVARIANT FailedIsClean
 INVARIANT DoneIsNew
@@ -15,5 +18,4 @@ INVARIANT DeadIsIntact
 INVARIANT StaleKept
 PROPERTY OthersUntouched
 PROPERTY Termination
-PROPERTY Settled
 CHECK_DEADLOCK FALSE
